@@ -23,6 +23,7 @@ import (
 
 // Fsync is a wrapper around file.Sync(). Special handling is needed on darwin platform.
 func Fsync(f *os.File) error {
+	defer verifSyncPoint(f)
 	return f.Sync()
 }
 
@@ -30,5 +31,6 @@ func Fsync(f *os.File) error {
 // unless that metadata is needed in order to allow a subsequent data retrieval
 // to be correctly handled.
 func Fdatasync(f *os.File) error {
+	defer verifSyncPoint(f)
 	return syscall.Fdatasync(int(f.Fd()))
 }
